@@ -591,6 +591,12 @@ def flatten_body(methods, body, depth=3, consts=None, stop=(), ho_only=False, im
             rep = _inline_call(methods, st.value, 'return', None, depth, stop, ho_only, impure)
         elif isinstance(st, ast.Assign) and len(st.targets) == 1 and isinstance(st.value, ast.Call) and isinstance(st.targets[0], (ast.Name, ast.Attribute, ast.Tuple)):
             rep = _inline_call(methods, st.value, 'assign', st.targets[0], depth, stop, ho_only, impure)
+        elif isinstance(st, ast.AugAssign) and isinstance(st.value, ast.Call) and isinstance(st.target, ast.Name):
+            # `acc += helper(...)`: the helper's value is named first, then accumulated
+            tmp_ = ast.Name(id='_aug_%d_%d' % (st.lineno, st.col_offset), ctx=ast.Store())
+            rep_ = _inline_call(methods, st.value, 'assign', tmp_, depth, stop, ho_only, impure)
+            if rep_ is not None:
+                rep = list(rep_) + [ast.copy_location(ast.AugAssign(target=st.target, op=st.op, value=ast.Name(id=tmp_.id, ctx=ast.Load())), st)]
         if rep is not None:
             out.extend(rep)
             continue
